@@ -113,18 +113,28 @@ func reenterLog() {
 
 type specObj struct{ s *Spec }
 
+// specPanicPrefix marks a marshaler that panics (user code with a nil dereference, say) instead of returning an error.
+const specPanicPrefix = "PANIC-IN-MARSHALER:"
+
+func specFail(msg string) error {
+	if strings.HasPrefix(msg, specPanicPrefix) {
+		panic(msg)
+	}
+	return errors.New(msg)
+}
+
 func (m specObj) MarshalLogObject(enc zapcore.ObjectEncoder) error {
 	if m.s.Reenter {
 		reenterLog()
 	}
 	for i, k := range m.s.Kids {
 		if m.s.Err != "" && i == m.s.ErrAt {
-			return errors.New(m.s.Err)
+			return specFail(m.s.Err)
 		}
 		k.Field().AddTo(enc)
 	}
 	if m.s.Err != "" {
-		return errors.New(m.s.Err)
+		return specFail(m.s.Err)
 	}
 	return nil
 }
@@ -141,16 +151,40 @@ type specArr struct{ s *Spec }
 func (m specArr) MarshalLogArray(enc zapcore.ArrayEncoder) error {
 	for i, k := range m.s.Kids {
 		if m.s.Err != "" && i == m.s.ErrAt {
-			return errors.New(m.s.Err)
+			return specFail(m.s.Err)
 		}
 		if err := k.appendTo(enc); err != nil {
 			return err
 		}
 	}
 	if m.s.Err != "" {
-		return errors.New(m.s.Err)
+		return specFail(m.s.Err)
 	}
 	return nil
+}
+
+// hasPanicMarshaler reports whether the tree contains a marshaler that panics.
+func hasPanicMarshaler(specs ...[]*Spec) bool {
+	var walk func(s *Spec) bool
+	walk = func(s *Spec) bool {
+		if strings.HasPrefix(s.Err, specPanicPrefix) {
+			return true
+		}
+		for _, k := range s.Kids {
+			if walk(k) {
+				return true
+			}
+		}
+		return false
+	}
+	for _, l := range specs {
+		for _, s := range l {
+			if walk(s) {
+				return true
+			}
+		}
+	}
+	return false
 }
 
 var scalarKinds = []string{"str", "bstr", "bool", "i64", "i32", "i16", "i8", "int", "u64", "u32", "u16", "u8", "uint", "uptr", "f64", "f32", "c128", "c64", "dur", "time"}
@@ -1239,6 +1273,7 @@ type specOpts struct {
 	viaAny   bool
 	zapfield bool // exp/zapfield constructors
 	faultPct int  // probability (percent) that an obj/arr fails when faults are on
+	panics   bool // C01 only: a failing obj/arr marshaler may PANIC instead of returning its error
 }
 
 func genSpec(t *rapid.T, depth int, inArray bool, o specOpts) *Spec {
@@ -1298,6 +1333,9 @@ func genSpec(t *rapid.T, depth int, inArray bool, o specOpts) *Spec {
 				s.Err = "e"
 			}
 			s.ErrAt = rapid.IntRange(0, n).Draw(t, "errAt")
+			if o.panics && rapid.IntRange(0, 3).Draw(t, "marshalerPanics") == 0 {
+				s.Err = specPanicPrefix + s.Err
+			}
 		}
 	}
 	switch s.Kind {
